@@ -170,6 +170,19 @@ fn make_doc(ch: &mut Chooser, name: &str) -> Made {
             if ch.chance(5, 6) { sx.binds.push(Bind::new("onFired", h(ch))); }
             if ch.chance(1, 2) { s.binds.push(Bind::new("onFired", h(ch))); }
             if ch.chance(1, 2) { sx.binds.push(Bind::new("onXFired", h(ch))); }
+            // a handler with a gadget-valued parameter: read only, member written, re-assigned
+            if ch.chance(2, 3) {
+                ch.label("handler-with-gadget-parameter");
+                let mut g = Obj::new("VSig").with_id("gf");
+                let body = match ch.below(4) {
+                    0 => "function(f: QFont) { d.tfont = f }",
+                    1 => "function(f: QFont) { f.bold = true; d.tfont = f }",
+                    2 => "function(f: QFont) { f.pointSize = a0.i0; f.family = \"Mono\"; dX.tfont = f }",
+                    _ => "function(f: QFont) { f = d.tfont; f.italic = a0.b0; d.tfont = f }",
+                };
+                g.binds.push(Bind::new("onFiredF", body));
+                objs.push(g);
+            }
             objs.extend([d, dx, s, sx]);
             // any order of the four objects
             for i in (1..objs.len()).rev() {
